@@ -64,6 +64,28 @@ def custom_classes():
                 json_loader=loads, json_dumper=dumps), uses
 
 
+def passthrough_stack(is_async):
+    if is_async:
+        async def mw1(rq, cx, handler):
+            return await handler(rq, cx)
+
+        async def mw2(req, ctx_, handler):
+            return await handler(req, ctx_)
+
+        async def eh(rq, cx, error):
+            return error
+    else:
+        def mw1(rq, cx, handler):
+            return handler(rq, cx)
+
+        def mw2(req, ctx_, handler):
+            return handler(req, ctx_)
+
+        def eh(rq, cx, error):
+            return error
+    return dict(middlewares=[mw1, mw2], error_handlers={None: [eh], -32601: [eh, eh], -32000: [eh]})
+
+
 class Sys:
     """one dispatcher under test plus its call log"""
 
@@ -77,6 +99,10 @@ class Sys:
             # 'sync-custom' / 'async-custom': every pluggable class / function replaced by a counting subclass / wrapper
             cc, self.uses = custom_classes()
             cfg = dict(cc, **cfg)
+        if 'mw' in kind:
+            # 'sync-mw' / 'async-mw': pass-through middlewares (whose parameters are not called request / context) and identity error
+            # handlers - configured user code that changes nothing must change nothing
+            cfg = dict(passthrough_stack(self.is_async), **cfg)
         if self.is_async:
             if 'seq' in kind:
                 cfg = dict(cfg, concurrent_batch=False)
